@@ -334,6 +334,19 @@ macro_rules! family {
             pub fn from_reader<R: std::io::BufRead>(self, r: R) -> Result<Val, DeError> {
                 match self { $( Ty::$variant => quick_xml::de::from_reader::<R, $ty>(r).map(Val::$variant), )* }
             }
+            /// the constructors that take an entity resolver, with the default resolver
+            pub fn from_str_with_resolver(self, xml: &str) -> Result<Val, DeError> {
+                match self { $( Ty::$variant => {
+                    let mut de = quick_xml::de::Deserializer::from_str_with_resolver(xml, quick_xml::de::PredefinedEntityResolver);
+                    <$ty as serde::Deserialize>::deserialize(&mut de).map(Val::$variant)
+                } )* }
+            }
+            pub fn from_reader_with_resolver<R: std::io::BufRead>(self, r: R) -> Result<Val, DeError> {
+                match self { $( Ty::$variant => {
+                    let mut de = quick_xml::de::Deserializer::with_resolver(r, quick_xml::de::PredefinedEntityResolver);
+                    <$ty as serde::Deserialize>::deserialize(&mut de).map(Val::$variant)
+                } )* }
+            }
             pub fn name(self) -> &'static str {
                 match self { $( Ty::$variant => stringify!($variant), )* }
             }
